@@ -30,6 +30,8 @@ def bounds(tier):
     return {"grammar": desc, "levels": [1] if tier == "quick" else [0, 1, 2], "conditions": 2, "inputs_per_state": 24,
             "axes": "every valid axis incl. negative for Stack/Concatenate/Vmap condition axis", "partial_index_kinds":
             ["int", "negative int", "slice", "strided slice", "int array", "bool array", "tuple", "ellipsis tuple"],
+            "merge_transforms": "every word of length 1-4 (thorough 1-5) over {Affine, TriangularAffine, AdditiveCondition, Flip} nested over StandardNormal and Normal (2-6 levels)",
+            "integer_inputs": "every expression with real domain on two integer arrays vs the same values as floats",
             "exhaustive_within_bounds": True}
 
 
@@ -39,7 +41,107 @@ def enumerate_cases(tier, seed):
     specs, _ = g.enumerate_exprs(tier)
     cases = [{"id": g.canon(s), "spec": s, "x64": True, "tier": tier, "seed": seed} for s in specs if "c" in s]
     cases.sort(key=lambda c: -len(c["id"]))
+    # merge_transforms: every nesting of 2-4 (quick) / 2-5 (thorough) non-commuting bijections over two bases
+    for part in range(MT_PARTS):
+        cases.append({"id": f"merge_transforms|{part}", "mt": part, "x64": True, "tier": tier, "seed": seed})
     return cases
+
+
+MT_PARTS = 8
+MT_ALPHABET = ["Affine", "TriAffine", "AddCond", "Flip"]  # pairwise non-commuting (Affine has distinct per-coordinate scales)
+
+
+def _mt_bijection(name, pos, seed):
+    import jax.numpy as jnp
+
+    import flowjax.bijections as B
+
+    t = 0.1 * pos + 0.01 * seed
+    if name == "Affine":
+        return B.Affine(jnp.asarray([0.3 + t, -0.7]), jnp.asarray([1.5, 0.6 + t]))
+    if name == "TriAffine":
+        return B.TriangularAffine(jnp.asarray([0.1, -0.2 - t]), jnp.asarray([[1.2, 0.0], [0.7 + t, 0.8]]))
+    if name == "AddCond":
+        return B.AdditiveCondition(_mt_cond_fn, (2,), (2,))
+    return B.Flip((2,))
+
+
+def _mt_cond_fn(c):
+    return 0.5 * c + 0.25 * c[::-1] ** 2
+
+
+def _run_merge_transforms(case):
+    """Transformed(...Transformed(Transformed(base, b1), b2)..., bn).merge_transforms() must be the same distribution: same
+    shape / cond_shape, bit-comparable samples for a key, same log_prob; its base must not be an AbstractTransformed and its
+    bijection a flat Chain of exactly the levels' bijections, innermost first."""
+    import itertools
+
+    import jax.numpy as jnp
+    import jax.random as jr
+
+    import flowjax.bijections as B
+    import flowjax.distributions as D
+
+    seed, tier = case["seed"], case["tier"]
+    viols, seen = [], {}
+    tr = nt = 0
+    digest = hashlib.sha1()
+    words = []
+    for n in (1, 2, 3, 4) if tier == "quick" else (1, 2, 3, 4, 5):
+        words += list(itertools.product(MT_ALPHABET, repeat=n))
+    X = jnp.asarray([[0.3, -1.1], [1.7, 0.4], [-2.0, 0.05]])
+    cnd = jnp.asarray([0.6, -0.9])
+    key = jr.PRNGKey(seed + 5)
+
+    def add(tag, msg):
+        seen[tag] = seen.get(tag, 0) + 1
+        if seen[tag] == 1:
+            viols.append({"sig": f"C08|merge_transforms||{tag}", "msg": msg, "detail": {}})
+
+    sample = None
+    for wi, word in enumerate(words):
+        if wi % MT_PARTS != case["mt"]:
+            continue
+        for bname in ("StandardNormal", "Normal"):
+            base = D.StandardNormal((2,)) if bname == "StandardNormal" else D.Normal(jnp.asarray([0.2, -0.4]), jnp.asarray([1.3, 0.7]))
+            levels = (1 if bname == "Normal" else 0) + len(word)
+            if levels < 2:
+                continue
+            d = base
+            for pos, name in enumerate(word):
+                d = D.Transformed(d, _mt_bijection(name, pos, seed))
+            tag = f"{bname}>" + ">".join(word)
+            tr += 1
+            nt += int(levels >= 3)
+            try:
+                m = d.merge_transforms()
+            except Exception as e:
+                add(f"raises|{type(e).__name__}", f"{tag}: merge_transforms raised {type(e).__name__}: {str(e)[:160]}")
+                continue
+            c = cnd if d.cond_shape is not None else None
+            if tuple(m.shape) != tuple(d.shape) or m.cond_shape != d.cond_shape:
+                add("declared-shape", f"{tag}: merge_transforms changed (shape, cond_shape) from {(d.shape, d.cond_shape)} to {(m.shape, m.cond_shape)}")
+                continue
+            if isinstance(m.base_dist, D.AbstractTransformed):
+                add("not-flat", f"{tag}: the merged distribution's base is still an AbstractTransformed")
+            members = list(m.bijection.bijections) if isinstance(m.bijection, B.Chain) else [m.bijection]
+            if len(members) != levels or any(isinstance(b_, B.Chain) for b_ in members):
+                add("levels", f"{tag}: {levels} nested levels were merged into a chain of {len(members)} bijections ({[type(b_).__name__ for b_ in members]})")
+            lp0, lp1 = np.asarray(d.log_prob(X, c), float), np.asarray(m.log_prob(X, c), float)
+            s0, s1 = np.asarray(d.sample(key, (3,), c), float), np.asarray(m.sample(key, (3,), c), float)
+            digest.update(np.ascontiguousarray(np.round(lp0, 9)).tobytes())
+            if not np.allclose(lp0, lp1, rtol=1e-9, atol=1e-12):
+                add("log_prob", f"{tag}: log_prob changed under merge_transforms: {lp0.tolist()} -> {lp1.tolist()}")
+            if not np.allclose(s0, s1, rtol=1e-9, atol=1e-12):
+                add("sample", f"{tag}: samples for the same key changed under merge_transforms: {s0[0].tolist()} -> {s1[0].tolist()}")
+            if sample is None:
+                sample = {"nesting": tag, "log_prob": lp0.tolist(), "merged_log_prob": lp1.tolist()}
+    for v in viols:
+        n = seen[v["sig"].split("||")[1]]
+        if n > 1:
+            v["msg"] += f"  [{n} nestings]"
+    return {"transitions": tr, "traces": tr, "states": tr, "nontrivial": nt, "violations": viols, "outcomes": {"merge_transforms": tr}, "skipped": {},
+            "max_ratio": 0.0, "digest": digest.hexdigest(), "sample": sample}
 
 
 # ----------------------------------------------------------------------------- reference interpreter
@@ -203,6 +305,8 @@ def run_case(case):
     from mc import battery as bt
     from mc import grammar as g
 
+    if "mt" in case:
+        return _run_merge_transforms(case)
     dtype = np.float64
     spec, tier, seed = case["spec"], case["tier"], case["seed"]
     ii = g.info(spec)
